@@ -90,6 +90,16 @@ def gen_cases(tier, seed):
                           'app': 'writer', 'chunk': 'all',
                           'force': [w, 0], 'cseed': 7})
 
+    # a packet size or window smaller than one character of the text the
+    # application writes
+    for t, role in (('session_extreme_pkt', 'server'),
+                    ('srv_confirm_extreme', 'client')):
+        for force in ([2097152, 1], [2097152, 2], [2097152, 3],
+                      [1, 32768], [2, 32768], [3, 32768], [3, 2]):
+            cases.append({'kind': 'peer', 'template': t, 'role': role,
+                          'app': 'writer', 'chunk': 'all', 'force': force,
+                          'cseed': 9})
+
     # same, reached through the dropbear off-by-one workaround: a peer that
     # calls itself dropbear, negotiates compression and announces size 1
     for t, role in (('session_extreme_pkt', 'server'),
@@ -403,8 +413,8 @@ def _t_session_zero_pkt(rng, ctx):
     """Open a session whose maximum packet size / window is extreme, then
        exec so that the server application writes to it"""
 
-    w = rng.choice([0, 1, 0xffffffff, 2097152])
-    m = rng.choice([0, 0, 1, 0xffffffff])
+    w = rng.choice([0, 1, 0xffffffff, 2097152, 2, 3])
+    m = rng.choice([0, 0, 1, 0xffffffff, 2, 3])
     if ctx.get('force'):
         w, m = ctx['force']
     return [bytes([R.MSG_CHANNEL_OPEN]) + _s(b'session') + u32(7) + u32(w) +
@@ -478,6 +488,25 @@ def _t_chan_msg(kind):
     return build
 
 
+def _t_long_line(rng, ctx):
+    """Text without a line end: as much as the receive window takes, then a
+       little more once it re-opens, for an application that reads lines"""
+
+    rid = ctx['remote_id']
+    w = min(ctx.get('window', 4096), 70000)
+    msgs = []
+    for off in range(0, w, 16384):
+        msgs.append(bytes([R.MSG_CHANNEL_DATA]) + u32(rid) +
+                    _s(b'A' * min(16384, w - off)))
+    k = rng.choice([8, 70, 300, 3])
+    msgs += [('settle',),
+             bytes([R.MSG_CHANNEL_DATA]) + u32(rid) + _s(b'B' * k),
+             ('settle',),
+             bytes([R.MSG_CHANNEL_DATA]) + u32(rid) + _s(b'\nhello\n'),
+             bytes([R.MSG_CHANNEL_EOF]) + u32(rid)]
+    return msgs, {'line_len': w, 'more': k}
+
+
 def _t_global(rng, ctx):
     name = rng.choice([b'tcpip-forward', b'cancel-tcpip-forward',
                        b'streamlocal-forward@openssh.com',
@@ -545,8 +574,8 @@ def _t_srv_silent(rng, ctx):
 
 # hostile *server* messages for the asyncssh client
 def _t_srv_confirm(rng, ctx):
-    w = rng.choice([0, 1, 0xffffffff, 2097152])
-    m = rng.choice([0, 0, 1, 0xffffffff])
+    w = rng.choice([0, 1, 0xffffffff, 2097152, 2, 3])
+    m = rng.choice([0, 0, 1, 0xffffffff, 2, 3])
     if ctx.get('force'):
         w, m = ctx['force']
     return [('confirm', w, m)], {'confirm_window': w, 'confirm_maxpkt': m}
@@ -571,6 +600,7 @@ PEER_TEMPLATES = {
     'open_tun': ('server', _t_open(b'tun@openssh.com')),
     'open_bogus': ('server', _t_open(b'bogus')),
     'session_extreme_pkt': ('server', _t_session_zero_pkt),
+    'long_line': ('server', _t_long_line),
     'adjust': ('server', _t_chan_msg('adjust')),
     'data_len_lie': ('server', _t_chan_msg('data')),
     'extdata': ('server', _t_chan_msg('extdata')),
@@ -601,13 +631,27 @@ for _n in (b'pty-req', b'env', b'window-change', b'signal', b'break',
             ('client', _t_chan_request(_n))
 
 
+async def _liner_app(process):
+    # server application that consumes its input line by line
+    if process.command == 'probe':
+        return await _upper(process)
+    n = 0
+    while not process.stdin.at_eof():
+        line = await process.stdin.readline()
+        n += len(line)
+    process.stdout.write(str(n))
+    process.exit(0)
+
+
 async def _writer_app(process):
     # server application that produces output as soon as it starts
     if process.command == 'probe':
         return await _upper(process)
-    process.stdout.write('x' * 500)
+    # (text with characters of 1..4 bytes: a peer-chosen packet size or
+    # window may be smaller than one character)
+    process.stdout.write('x\u00e9\u20ac\U0001F600' * 125)
     d = await process.stdin.read(10)
-    process.stdout.write('y' * 100)
+    process.stdout.write('y\u00fc' * 50)
     process.exit(0)
 
 
@@ -634,13 +678,18 @@ def _run_peer(case, mon, viol, info):
             return o
 
         app = _upper if case['app'] == 'echo' else _writer_app
+        extra_opts = {}
+        if case['template'] == 'long_line':
+            app = _liner_app
+            extra_opts['window'] = [4096, 65536, 1000][case['cseed'] % 3]
 
         if role == 'server':
             async with scen.Env(loop, server_factory=mk_srv,
                                 chunking=case['chunk'], seed=case['cseed'],
                                 server_opts=dict(process_factory=app,
                                                  x11_forwarding=True,
-                                                 agent_forwarding=True)
+                                                 agent_forwarding=True,
+                                                 **extra_opts)
                                 ) as env:
                 by = await env.connect()
                 peer = await hostile.ref_client(env.wire, **_peer_kw(case))
@@ -673,6 +722,9 @@ def _run_peer(case, mon, viol, info):
                                 peer.send(peer.channel_request(
                                     rid, b'exec', True, _s(b'x')))
                                 mon['peer_messages'] += 1
+                            continue
+                        if isinstance(m, tuple) and m[0] == 'settle':
+                            await env.settle()
                             continue
                         if peer.closed:
                             break
@@ -795,7 +847,8 @@ def _run_peer(case, mon, viol, info):
                                 await asyncio.wait_for(conn.wait_closed(),
                                                        60)
                             return
-                        res = await conn.run('x', input='hello' * 50)
+                        res = await conn.run(
+                            'x', input='h\u00e9llo\u20ac\U0001F600' * 40)
                         result['run'] = res
 
                     ct = asyncio.ensure_future(client())
